@@ -307,6 +307,9 @@ func runC06(w *W) {
 	w.World.PoolFreshPct = pickInt(t, "knob.poolfresh", 20, 0, 100)
 	so := tgenOpts{MaxStructs: 1 + t.Intn(3, "sch.structs"), MaxFields: 1 + t.Intn(6, "sch.fields"), MaxDepth: 1 + t.Intn(3, "sch.depth"),
 		BigIDs: t.Chance(1, 3, "sch.bigids"), Recursive: t.Chance(1, 3, "sch.rec"), Requiredness: t.Chance(1, 3, "sch.req")}
+	// api.js_conv fields under EnableValueMapping: the converters have separate code for them (an inlined mapping in
+	// the native JSON parser, annotation.apiJSConv for Thrift->JSON), which sees the damaged inputs too
+	so.JSConv = t.Chance(1, 3, "sch.jsconv")
 	sch := genSchema(t, so)
 	// base64 binaries + JSON->Thrift is the precondition of the open native finding F01 (decode past the output
 	// capacity): in such worlds every output buffer ends at an unmapped page and the JSON input does not, so
@@ -336,10 +339,14 @@ func runC06(w *W) {
 	val := vg.value(sch.Root, vg.o.Depth)
 	var ms []mark
 	msg := encodeThriftMarks(nil, val, &ms)
-	js := (&jsonStyle{t: t, WS: t.Intn(3, "js.ws"), Esc: t.Intn(3, "js.esc"), Num: t.Intn(2, "js.num")}).render(val)
+	valueMapping := so.JSConv && t.Chance(2, 3, "opt.vm")
+	js := (&jsonStyle{t: t, WS: t.Intn(3, "js.ws"), Esc: t.Intn(3, "js.esc"), Num: t.Intn(2, "js.num"), ValueMapping: valueMapping}).render(val)
 	w.Logf("IDL:\n%s\nflavour %s\nmsg %d bytes: %x\njson: %s", sch.IDL, flavour, len(msg), clipb(msg, 1000), clip(js, 300))
 	gopts := &generic.Options{UseNativeSkip: t.Chance(1, 2, "opt.nativeskip"), StoreChildrenById: t.Chance(1, 3, "opt.byid"), StoreChildrenByHash: t.Chance(1, 3, "opt.byhash"), DisallowUnknow: t.Chance(1, 4, "opt.du")}
-	copts := conv.Options{DisallowUnknownField: gopts.DisallowUnknow, WriteDefaultField: t.Chance(1, 3, "opt.wd"), UseNativeSkip: gopts.UseNativeSkip}
+	copts := conv.Options{DisallowUnknownField: gopts.DisallowUnknow, WriteDefaultField: t.Chance(1, 3, "opt.wd"), UseNativeSkip: gopts.UseNativeSkip, EnableValueMapping: valueMapping}
+	if valueMapping {
+		w.Count("worlds_with_value_mapping")
+	}
 	tc := t2j.NewBinaryConv(copts)
 	jc := j2t.NewBinaryConv(copts)
 	ctx := context.Background()
